@@ -79,18 +79,38 @@ Definition snap (s : State) := (s_round s, s_last_voted s, s_last_committed s, q
 Definition snap_eqb (a b : N * N * N * N) : bool :=
   match a, b with (a1, a2, a3, a4), (b1, b2, b3, b4) => (a1 =? b1) && (a2 =? b2) && (a3 =? b3) && (a4 =? b4) end.
 
-(* index of the first disagreeing step, if any *)
-Fixpoint agree (c : Committee) (me : N) (fixedc : bool) (evs : list (list N * Event)) (obs : list Obs)
-               (s : State) (i : N) : option N :=
+Definition b2n (b : bool) : N := if b then 1 else 0.
+
+(* one step compared category by category: network outputs, commit channel, mempool channel, proposer
+   channel, result kind, state snapshot, payload-hint bookkeeping *)
+Definition step_cmp (o : list Out) (r : res unit) (s1 : State) (ob : Obs) : list bool :=
+  [ list_eqb out_eqb (filter is_net o) (filter is_net (ob_out ob));
+    list_eqb out_eqb (filter is_commit o) (filter is_commit (ob_out ob));
+    list_eqb out_eqb (filter is_mem o) (filter is_mem (ob_out ob));
+    list_eqb out_eqb (filter is_prop o) (filter is_prop (ob_out ob));
+    rkind_eqb (rkind_of r) (ob_res ob);
+    snap_eqb (snap s1) (ob_state ob);
+    negb (existsb is_bad o) ].
+
+Fixpoint andl (a b : list bool) : list bool :=
+  match a, b with x :: xs, y :: ys => (x && y) :: andl xs ys | _, _ => [] end.
+
+(* runs the model of the CURRENT source ([src_dq]) on the events the implementation was given; returns the
+   per-category agreement flags over the whole run, the index (from 1) of the first step with any
+   difference (0 = none) and the model's final state (for the ghost monitors) *)
+Fixpoint agree_run (c : Committee) (me : N) (evs : list (list N * Event)) (obs : list Obs)
+                   (s : State) (i : N) (acc : list bool) (first : N) : list bool * N * State :=
   match evs, obs with
-  | [], [] => None
+  | [], [] => (acc, first, s)
   | (h, e) :: er, ob :: or =>
-      match step c me fixedc h e s with
+      match step c me src_dq h e s with
       | (s1, o, r) =>
-          if list_eqb out_eqb (canon o) (canon (ob_out ob)) && rkind_eqb (rkind_of r) (ob_res ob) &&
-             snap_eqb (snap s1) (ob_state ob)
-          then agree c me fixedc er or s1 (i + 1)
-          else Some i
+          let f := step_cmp o r s1 ob in
+          let first' := if (first =? 0) && negb (forallb (fun x => x) f) then i else first in
+          agree_run c me er or s1 (i + 1) (andl acc f) first'
       end
-  | _, _ => Some i
+  | _, _ => (map (fun _ => false) acc, (if first =? 0 then i else first), s)
   end.
+
+Definition agree (c : Committee) (me : N) (evs : list (list N * Event)) (obs : list Obs) :=
+  agree_run c me evs obs (init c) 1 [true; true; true; true; true; true; true] 0.
